@@ -1114,6 +1114,8 @@ const SLOTS: &[Slot] = &[
             ("rename", "rename = \"Alpha\"", "rename = \"Beta\""),
             ("rename_all", "rename_all = \"camelCase\"", "rename_all = \"SCREAMING_SNAKE_CASE\""),
             ("tag", "tag = \"kind\"", "tag = \"type\""),
+            // values that need escaping in the output
+            ("tag", "tag = \"ki\\\"nd\"", "tag = \"ty\\\\pe\""),
             ("bound", "bound = \"T: Clone\"", "bound = \"T: Copy\""),
         ],
     },
@@ -1163,6 +1165,7 @@ const SLOTS: &[Slot] = &[
         template: "@ enum E { UnitV, NewV(Inner), StructV { inner_field: i32 } }",
         keys: &[
             ("tag", "tag = \"kind\"", "tag = \"type\""),
+            ("tag", "tag = \"ki\\\"nd\"", "tag = \"ty\\\\pe\""),
         ],
     },
     Slot {
@@ -1170,6 +1173,7 @@ const SLOTS: &[Slot] = &[
         template: "#[ts(tag = \"t\")] @ enum E { UnitV, NewV(i32), TupV(i32, i32), StructV { inner_field: i32 } }",
         keys: &[
             ("content", "content = \"c\"", "content = \"data\""),
+            ("content", "content = \"c\\\"d\"", "content = \"da\\\\ta\""),
         ],
     },
     Slot {
@@ -1177,6 +1181,7 @@ const SLOTS: &[Slot] = &[
         template: "enum E { First, @ SecondV { inner_field: i32 }, Third(i32) }",
         keys: &[
             ("rename", "rename = \"alpha\"", "rename = \"beta\""),
+            ("rename", "rename = \"al\\\"pha\"", "rename = \"be\\\\ta\""),
             ("rename_all", "rename_all = \"camelCase\"", "rename_all = \"UPPERCASE\""),
             ("skip", "skip", "skip"),
             ("untagged", "untagged", "untagged"),
@@ -1196,6 +1201,7 @@ const SLOTS: &[Slot] = &[
         template: "struct S { before: i32, @ the_field: Inner, after: i32 }",
         keys: &[
             ("rename", "rename = \"alpha\"", "rename = \"beta-2\""),
+            ("rename", "rename = \"al\\\"pha\"", "rename = \"\""),
             ("skip", "skip", "skip"),
             ("flatten", "flatten", "flatten"),
         ],
